@@ -57,6 +57,12 @@ def run(ctx):
     _cache_key(ctx, model)
     check_lookaside(ctx, model)
     check_cse_mixin(ctx, model)
+    # the cached dependency mapper is its non-memoizing counterpart plus the
+    # look-aside: same handlers, every constructor option forwarded under its
+    # own name (C09's rule instances)
+    from .c09 import DEP, _check_cached_dep
+    _check_cached_dep(ctx, model, model.cls(f"{DEP}:DependencyMapper"),
+                      model.cls(f"{DEP}:CachedDependencyMapper"))
     _variants(ctx, model)
     _float_sibling(ctx, model)
     _purity(ctx, model)
@@ -188,10 +194,9 @@ def _uncached_container_dispatch(ps, rv):
 
     def container_test(v):
         if v[0] == "call" and v[1] == "isinstance" and v[2][0] == NODE:
-            # (tuples may take the same way: one that holds a list cannot be
-            # hashed either, and map_foreign routes them to map_tuple)
-            return all(c in ("list", "tuple", "ndarray", "numpy.ndarray",
-                             "np.ndarray")
+            # (not tuples: a tuple is a key like any other, and each key is
+            # computed once per instance)
+            return all(c in ("list", "ndarray", "numpy.ndarray", "np.ndarray")
                        for c in _class_names_of(v[2][1]))
         return v[0] == "call" and v[1] == "is_numpy_array" and v[2] == (NODE,)
     # the guard may be a disjunction of container tests taken as a whole
@@ -522,9 +527,11 @@ def _is_table_use(fn, attr):
             vals = [n.value]
             # chained  a = self.x = {}
             for v in vals:
-                if isinstance(v, ast.Attribute) and isinstance(
-                        v.value, ast.Name) and v.value.id == "self" and \
-                        v.attr == attr:
+                # self.x itself, or something obtained from it
+                # (self.x.setdefault(...), self.x[k]): a part of the same object
+                if any(isinstance(x, ast.Attribute) and isinstance(
+                        x.value, ast.Name) and x.value.id == "self" and
+                        x.attr == attr for x in ast.walk(v)):
                     aliases.update(t.id for t in n.targets
                                    if isinstance(t, ast.Name))
             if any(isinstance(t, ast.Attribute) and isinstance(t.value, ast.Name)
